@@ -52,6 +52,25 @@ def straightline(body: list[ast.stmt]) -> dict[str, ast.AST]:
                 continue
             val = _Sub(env).visit(copy.deepcopy(st.value))
             env[key] = val
+        elif isinstance(st, ast.If) and len(st.body) == 1 and isinstance(
+                st.body[0], ast.Assign) and len(
+                    st.body[0].targets) == 1 and all(
+                        isinstance(x, ast.Pass) for x in st.orelse):
+            # `if T: x = E` is the conditional expression
+            # `x = E if T else x` (the spelling the siblings may use)
+            a = st.body[0]
+            key = dotted(a.targets[0])
+            if key is None:
+                continue
+            old = copy.deepcopy(env[key]) if key in env else copy.deepcopy(
+                a.targets[0])
+            if isinstance(old, (ast.Name, ast.Attribute)):
+                old.ctx = ast.Load()
+            env[key] = ast.IfExp(
+                test=_Sub(env).visit(copy.deepcopy(st.test)),
+                body=_Sub(env).visit(copy.deepcopy(a.value)),
+                orelse=old,
+            )
         elif isinstance(st, ast.Return) and st.value is not None:
             env['<return>'] = _Sub(env).visit(copy.deepcopy(st.value))
     return env
